@@ -359,6 +359,29 @@ pub fn run(ctx: &mut Ctx) {
                 ctx.violation("returned_point_vs_internal_iterate", "returned_point_vs_internal_iterate", wl, case, case_json(&p, &sk, &short, json!({"k": k, "mismatch": b, "tau": fs.τ, "kappa": fs.κ, "c": short.c})));
                 break;
             }
+            // the point handed back after k iterations lies in the USER's cones: the internal iterate is strictly interior
+            // and the row scaling is uniform inside every non-polyhedral cone, so un-scaling cannot leave K x K* by more
+            // than rounding (judged when no row was removed by the presolver and the returned point is finite)
+            if pm.keep.iter().all(|b| *b) && short.s.iter().chain(short.z.iter()).all(|v| v.is_finite()) {
+                let mut out = None;
+                for (c, rg) in p.cones.iter().zip(cone_ranges(&p.cones)) {
+                    if rg.is_empty() || matches!(c, ConeT::ZeroConeT(_)) {
+                        continue;
+                    }
+                    let (ms, ss) = margin(c, &short.s[rg.clone()], false);
+                    let (mz, sz) = margin(c, &short.z[rg.clone()], true);
+                    ctx.eval(1);
+                    if !(ms >= -1e-9 * ss && mz >= -1e-9 * sz) {
+                        out = Some(json!({"cone": vkit::cones::cone_name(c), "rows": [rg.start, rg.end], "margin_s": ms, "scale_s": ss, "margin_z": mz, "scale_z": sz}));
+                        break;
+                    }
+                }
+                ctx.bump("returned_prefix_points_judged_against_user_cones");
+                if let Some(o) = out {
+                    ctx.violation("returned_prefix_point_outside_user_cone", "returned_prefix_point_outside_user_cone", wl, case, case_json(&p, &sk, &short, json!({"k": k, "outside": o})));
+                    break;
+                }
+            }
             if short.status == SolverStatus::MaxIterations {
                 ctx.bump("prefix_runs_ending_MaxIterations");
             } else {
